@@ -135,6 +135,11 @@ Definition flush (items : list citem) (p : pending) : list citem :=
   | PTrail => IChar "-" :: items
   end.
 Definition cls_atom (ci neg : bool) (items : list citem) : re := Chr (mkCls neg ci (rev items)).
+(* The regex crate refuses a class that denotes the empty set.  In the subset a class that is not
+   negated never is empty; a negated one can only be when it contains \D, \W or \S (nothing else
+   reaches the non-ASCII characters outside \w and \s).  Such classes are left out of the subset. *)
+Definition is_neg_perl (it : citem) : bool := match it with IPerl true _ => true | _ => false end.
+Definition cls_allowed (neg : bool) (items : list citem) : bool := negb (neg && existsb is_neg_perl items).
 
 (* a single (possibly escaped) character x read inside a class *)
 Definition cls_char (neg : bool) (items : list citem) (p : pending) (x : ascii) : option mode :=
@@ -149,7 +154,7 @@ Definition cls_step (ci : bool) (f : frame) (neg : bool) (items : list citem) (p
   if Ascii.eqb c "]" then
     match flush items p with
     | [] => None
-    | its => Some (ASet (push_atom (cls_atom ci neg its) f) Normal)
+    | its => if cls_allowed neg its then Some (ASet (push_atom (cls_atom ci neg its) f) Normal) else None
     end
   else if Ascii.eqb c "\" then Some (ASet f (ClsEsc neg items p))
   else if Ascii.eqb c "[" || Ascii.eqb c "&" || Ascii.eqb c "~" then None
